@@ -103,7 +103,7 @@ def build_run_contract(ex, prop):
     only_new_child.__doc__ = ("C11.L3: the list of children only grows by the child just created; no existing child or context (c0 arbitrary) is "
                               "terminated or killed by a client's request or failure - except the context a delete request names")
 
-    main = Loop(invariant=['lsock.open', server.was_child_inv],
+    main = Loop(header='while True', invariant=['lsock.open', server.was_child_inv],
                 modifies=['self.children', 'self.contexts', 'ghost:was_child', 'ghost:none_header_received', 'abs:Conn.inq', 'abs:Conn.ipos', 'abs:Conn.out', 'abs:Conn.open', 'abs:Conn.peer_closed',
                           'abs:RCtx.calls', 'abs:RCtx.waited', 'abs:RCtx.alive', 'abs:RCtx.terminated', 'abs:RCtx.killed', 'abs:RCtx.term_raised'],
                 locals={})
@@ -113,7 +113,7 @@ def build_run_contract(ex, prop):
     def handled_at(k):
         return (f'implies(0 <= {k} and {k} < __i__, terminated(__seq__[{k}]) and '
                 f'(term_raised(__seq__[{k}]) or not alive(__seq__[{k}]) or killed(__seq__[{k}])))')
-    fin = Loop(invariant=[handled_at('k1'), handled_at('k2'), server.was_child_inv], variant='__n__ - __i__',
+    fin = Loop(header='chain(', invariant=[handled_at('k1'), handled_at('k2'), server.was_child_inv], variant='__n__ - __i__',
                modifies=['ghost:was_child', 'abs:RCtx.alive', 'abs:RCtx.terminated', 'abs:RCtx.term_raised', 'ghost:killed_pids'],
                locals={})
 
